@@ -170,6 +170,10 @@ func runC06(c *ctx) {
 					want[row["_id"].(int)] = 1
 				}
 			}
+			// read-only queries must not change what is visible: a few selective prefilter queries first
+			for _, pv := range []string{"p1", "p0", "p2", "p0"} {
+				RunQuery(env.Eng, bs.NewQuery().MatchPrefilter(bs.Partition(bs.PartitionEquals(pv))).Build())
+			}
 			for which, eng := range map[string]*bs.BloomSearchEngine{"this engine": env.Eng, "a fresh engine": freshEngine(env)} {
 				got, qerr := visibleIDs(eng)
 				if fmt.Sprint(got) != fmt.Sprint(want) {
